@@ -82,7 +82,7 @@ structure D where
   stub : Bool := true
   stream : Bool := false
   wf : Bool := false
-  reports : Array Report := #[]
+  reports : Array (Report String) := #[]
   evs : Array String := #[]
   snd : Array String := #[]
   outcome : String := "alive"
@@ -189,13 +189,13 @@ def mouseOracle (q : Seq) (impl : String) : Option String :=
   match q with
   | .csi [60] [[b], [x], [y]] fin =>
     if (fin == 77 || fin == 109) && b ≥ 0 && x ≥ 0 && y ≥ 0 then
-      let want := (mouseEvent b.toNat x.toNat y.toNat (fin == 109)).canon
+      let want := (mouseEvent (κ := String) b.toNat x.toNat y.toNat (fin == 109)).canon
       let got := evsOf impl
       if got == [want] then none else some s!"FAIL mouse report must yield exactly {want}, got {got}"
     else none
   | _ => none
 
-def parseReport (f : List String) : Option Report :=
+def parseReport (f : List String) : Option (Report String) :=
   match f with
   | ["key", tok, et] => some (.key tok (et.toInt?.getD 0))
   | ["mouse", b, x, y, fin] => do pure (.mouseSGR (← b.toNat?) (← x.toNat?) (← y.toNat?) (fin == "m"))
